@@ -2073,7 +2073,9 @@ pub fn c09_post(case: &Case) {
         }
         // fill order is program (issue) order: completions of one batch's block writes may be reordered
         gen_.first_write = Some(gen_.first_write.map(|f| f.min(w.issue_seq)).unwrap_or(w.issue_seq));
-        gen_.last_write = Some(gen_.last_write.map(|l| l.max(w.issue_seq)).unwrap_or(w.issue_seq));
+        // "finished filling" = the device has acknowledged its last write: a block only becomes reclaimable when the io
+        // task that wrote it has completed, and completions of different blocks' writes may overtake each other
+        gen_.last_write = Some(gen_.last_write.map(|l| l.max(t)).unwrap_or(t));
         if let Some(idx) = as_index {
             // a blob index is only ever rewritten with a superset of its entries
             if let Some(old) = gen_.index.get(&w.offset) {
@@ -2136,6 +2138,26 @@ pub fn c09_post(case: &Case) {
                 // a was completely filled before b saw its first write, yet b was reclaimed first
                 if a.2 < b.1 && b.3 < a.3 {
                     hist::probe("c09_fifo_pair");
+                    // the default pickers put the invalid-ratio picker first: a block most of whose data has been
+                    // superseded (overwritten, or copied away by a re-insertion) by the time it is reclaimed may go
+                    // before an older one. Superseded = a higher sequence of the same hash was written before.
+                    let ews = entry_writes();
+                    let in_b: Vec<&EntryWrite> = ews.iter().filter(|w| w.part == b.0 && w.apply_seq.map(|x| x >= b.1 && x < b.3).unwrap_or(false)).collect();
+                    let superseded: usize = in_b
+                        .iter()
+                        .filter(|w| ews.iter().any(|n| n.hash == w.hash && (n.sequence > w.sequence || (n.sequence == w.sequence && (n.part, n.offset) != (w.part, w.offset))) && n.issue_seq < b.3))
+                        .map(|w| w.len.div_ceil(simdev::PAGE) * simdev::PAGE)
+                        .sum();
+                    if std::env::var("VERIF_DEBUG").is_ok() {
+                        eprintln!("[fifo] block part {} gen [{}..{}): {} entries, superseded {} of block {}", b.0, b.1, b.3, in_b.len(), superseded, g.block_size);
+                        for w in &in_b {
+                            eprintln!("[fifo]   entry hash {} seq {} len {} apply {:?}", w.hash, w.sequence, w.len, w.apply_seq);
+                        }
+                    }
+                    if superseded * 2 >= g.block_size {
+                        hist::probe("c09_newer_block_mostly_invalid");
+                        continue;
+                    }
                     hist::violation(
                         "C09",
                         "not-oldest-first",
